@@ -29,8 +29,25 @@ def _conn_fns(repo):
     return [Fn(repo, f"quic.connection:{q}") for q in sorted(m.functions) if q.startswith("QuicConnection.") and ".<locals>." not in q]
 
 
+def _loss_timer_boundary(repo, chk):
+    """the loss timer is armed for sent_time + loss_delay and tested with now - loss_delay: a timer handled exactly at
+    its deadline must declare the packet lost (non-strict comparison), else the same deadline is armed again and a
+    caller that fires timers on time never advances"""
+    dl = Fn(repo, "quic.recovery:QuicPacketRecovery._detect_loss")
+    apps = [c for c in dl.calls(suffix="append") if c.args and norm(c.args[0]) == "packet"]
+    th = [norm(v) for st, t, v in dl.assigns(chain="time_threshold")]
+    arm = [norm(v) for st, t, v in dl.assigns(chain="packet_loss_time")] + [norm(v) for st, t, v in dl.assigns(chain="space.loss_time") if "sent_time" in norm(v)]
+    ok = len(apps) == 1 and th == ["now - loss_delay"] and any(a.replace(" ", "") == "packet.sent_time+loss_delay" for a in arm)
+    if ok:
+        at = dl.guard_atoms(apps[0]) + dl.lexical_guards(apps[0], expand=False)
+        disj = [a[0] for a in at if a[1] and "time_threshold" in a[0]]
+        ok = any("time_threshold >= packet.sent_time" in d for d in disj)
+    chk.ob("R1", "_detect_loss declares a packet lost when the loss timer is handled exactly at its deadline (sent_time <= now - loss_delay)", ok, "with a strict comparison the packet is not lost at now == loss_time and the same deadline is armed again: get_timer() keeps naming a deadline that is not in the future", dl.loc(dl.node))
+
+
 def run(repo, chk):
     chk.rule("R1", "get_timer: result initialised from _close_at, replaced only by values tested `< result` and not None, for every ACK deadline, the loss-detection time and the pacing time; _close_at writers: __init__ (None), _connect, receive_datagram (first arming, re-arming outside the end states), _close_begin, _close_end (None, with TERMINATED)")
+    _loss_timer_boundary(repo, chk)
     chk.rule("R2", "ConnectionTerminated is queued only by _close_end; _close_end has exactly two guarded callers; _close_event is assigned only when it is None (or immediately before _close_end)")
     chk.rule("R3", "END_STATES early returns in receive_datagram / datagrams_to_send; event-queuing functions are reachable from public methods only behind them; the closing branch is bounded and clears _close_pending")
     chk.rule("R4", "_close_begin sets the deadline to now + 3 * probe timeout")
